@@ -100,7 +100,10 @@ def sweep(ctx: Ctx):
     """property oracle on the implementation; per check kind only the canonical first failing input is reported"""
     first = {}
     plan = [("MultiExpRTransform", dict(rmin=0.0, R=1.0), "GaussLegendre", 5),
-            ("KnowlesRTransform", dict(rmin=0.0, R=1.5, k=1.5), "GaussChebyshev", 10)]
+            ("KnowlesRTransform", dict(rmin=0.0, R=1.5, k=1.5), "GaussChebyshev", 10),
+            # Jacobians beyond 1e16 at interior nodes (trimming must only replace infinities)
+            ("HandyRTransform", dict(rmin=0.0, R=1.5, m=3), "GaussChebyshev", 200),
+            ("HandyRTransform", dict(rmin=0.0, R=1.5, m=2), "GaussLegendre", 900)]
     classes = ["BeckeRTransform", "LinearFiniteRTransform", "MultiExpRTransform", "KnowlesRTransform", "HandyRTransform", "HandyModRTransform"]
     rules = ["GaussLegendre", "GaussChebyshev", "GaussChebyshevType2", "ClenshawCurtis", "FejerFirst", "MidPoint", "Simpson"]
     for _ in range(12 if ctx.quick else 150):
@@ -123,6 +126,13 @@ def sweep(ctx: Ctx):
         interior = np.abs(x) < 1  # end points map to (trimmed) infinity
         with np.errstate(all="ignore"):
             tx, dv = tf.transform(x), tf.deriv(x)
+            # independent of the trimming helper: the same class without trimming (finite values must coincide)
+            tf_nt = c03.make_tf(cname, p, False)
+            tx_nt, dv_nt = tf_nt.transform(x), tf_nt.deriv(x)
+        fin = interior & np.isfinite(dv_nt) & np.isfinite(tx_nt)
+        if np.any(tx[fin] != tx_nt[fin]) or np.any(dv[fin] != dv_nt[fin]):
+            i = int(np.argmax(fin & ((tx != tx_nt) | (dv != dv_nt))))
+            first.setdefault("trim_only_infinities", (desc + f": node {x[i]!r}", float(dv[i]), float(dv_nt[i])))
         if not np.array_equal(new.points, tx):
             first.setdefault("points", (desc, float(np.max(np.abs(new.points - tx))), 0.0))
         exp_w = np.abs(dv) * w
